@@ -278,6 +278,8 @@ func init() {
 			k.WBadProvide, k.WCycleCloser, k.WDupDecorate, k.WBadDecorate = 2, 2, 2, 1
 			k.PFresh = 80
 			k.PAs, k.PVariadic, k.PSoft, k.PFlatten = 30, 20, 40, 40
+			k.PAsObj = 25 // As lists of several interfaces on constructors with several results
+			k.PGroupOptMulti = 12
 			k.PGroupParam, k.PGroupRes, k.PNamed, k.POpt = 35, 35, 35, 30
 			k.PNest = 50
 			k.WDecorate = 5
